@@ -5,7 +5,7 @@ ID=$1; P=$2
 W=/tmp/mut/tri.$$
 git -C /repo worktree add -q --detach $W HEAD
 git -C $W apply $P || { git -C /repo worktree remove --force $W; echo "$ID $P apply-failed"; exit 2; }
-GOSYM_REPO=$W GOSYM_VERIF=/verif timeout 1500 /verif/bin/gosym check $ID --tier quick --no-evidence > /tmp/tri.$$.log 2>&1; RC=$?
+GOSYM_REPO=$W GOSYM_VERIF=${VERIF_DIR:-/verif} timeout 1500 ${VERIF_DIR:-/verif}/bin/gosym check $ID --tier quick --no-evidence > /tmp/tri.$$.log 2>&1; RC=$?
 git -C /repo worktree remove --force $W
 case $RC in 1) R=detected;; 0) R=MISSED;; *) R=inconclusive;; esac
 echo "$ID $P $R $(grep -a -m1 'harness=' /tmp/tri.$$.log | cut -c1-120)"
